@@ -75,3 +75,55 @@ Theorem C07_index_level_search_is_the_search :
   forall cons n path, sc_ok cons n = true -> search_c cons n path = Ret (search (cfun_of cons) n path).
 Proof. exact search_c_refines. Qed.
 Print Assumptions C07_index_level_search_is_the_search.
+
+(* ---- insert, find and delete at the level of indices (Model/OpsC.v: every `prefix[0]`, `child.state.prefix[0]`,
+        `prefix[common_prefix..]`, `child.state.prefix[..common_prefix]`, `static_children[1]`, `children[index]`,
+        `children.remove(index)`, `static_children.remove(0)` and `&prefix[child.state.prefix.len()..]` is an explicit
+        operation that can return Panic; the recursion runs on fuel and running out is the outcome Fuel) ---- *)
+From WF Require Import Model.OpsC Proofs.OpsCP.
+Print insert_static_c.
+Print find_static_c.
+Print delete_static_c.
+
+(* node level: on every tree whose literal children have non-empty prefixes (PNE), for every well-formed part list and
+   enough fuel, the checked operations return (no Panic, no Fuel) exactly what the functional operations compute *)
+Theorem C07_index_level_insert_is_the_insert :
+  forall fuel n ps d b, parts_size ps < fuel -> PNE n -> parts_wf b ps = true ->
+    insert_c fuel n ps d = Ret (insert fuel n ps d).
+Proof. intros fuel. exact (proj1 (insert_c_refines fuel)). Qed.
+Print Assumptions C07_index_level_insert_is_the_insert.
+
+Theorem C07_index_level_find_is_the_find :
+  forall fuel n ps b, parts_size ps < fuel -> parts_wf b ps = true -> find_c fuel n ps = Ret (find_node fuel n ps).
+Proof. intros fuel. exact (proj1 (find_c_refines fuel)). Qed.
+Print Assumptions C07_index_level_find_is_the_find.
+
+Theorem C07_index_level_delete_is_the_delete :
+  forall fuel n ps b, parts_size ps < fuel -> PNE n -> parts_wf b ps = true ->
+    delete_c fuel n ps = Ret (delete fuel n ps).
+Proof. intros fuel. exact (proj1 (delete_c_refines fuel)). Qed.
+Print Assumptions C07_index_level_delete_is_the_delete.
+
+(* the precondition is met by every structurally well-formed tree *)
+Theorem C07_wellformed_trees_have_nonempty_prefixes : forall n, wf n = true -> PNE n.
+Proof. exact wf_PNE. Qed.
+Print Assumptions C07_wellformed_trees_have_nonempty_prefixes.
+
+(* router level, every history, every template string: Router::insert and Router::delete written over the checked
+   parser and the checked tree operations are the functional ones - hence return Ok or an error value, never Panic
+   (index, slice, remove out of range) and never run out of fuel *)
+Theorem C07_index_level_router_insert :
+  forall b (ops : list op) t d, rinsert_c (run b ops) t d = rinsert (run b ops) t d.
+Proof. exact reachable_rinsert_c. Qed.
+Print Assumptions C07_index_level_router_insert.
+
+Theorem C07_index_level_router_delete :
+  forall b (ops : list op) t, rdelete_c (run b ops) t = rdelete (run b ops) t.
+Proof. exact reachable_rdelete_c. Qed.
+Print Assumptions C07_index_level_router_delete.
+
+Theorem C07_insert_delete_never_panic_at_index_level :
+  forall b (ops : list op) t d s,
+    snd (rinsert_c (run b ops) t d) <> RPanic s /\ snd (rdelete_c (run b ops) t) <> RPanic s.
+Proof. exact reachable_ops_c_never_panic. Qed.
+Print Assumptions C07_insert_delete_never_panic_at_index_level.
